@@ -28,7 +28,8 @@ def tok(c):
     if not c["p"]:
         return "p0"
     x = "+".join(c["x"]) if c["x"] else "-"
-    return "p1,v%d,l%d,m%d,o%d,h%d,s%d,i%d,k%d,g%d,b%d,a%d,x%s" % (c["v"], c["l"], c["m"], c["o"], c["h"], c["s"], c["i"], c["k"], c["g"], c["b"], c["a"], x)
+    t = ",t%d" % c["t"] if c.get("t") else ""
+    return "p1,v%d,l%d,m%d,o%d,h%d,s%d,i%d,k%d,g%d,b%d,a%d%s,x%s" % (c["v"], c["l"], c["m"], c["o"], c["h"], c["s"], c["i"], c["k"], c["g"], c["b"], c["a"], t, x)
 
 
 def lst(cs):
@@ -96,6 +97,9 @@ def deviations(idx, nissuers_below):
     add("issuer-name-extended", lambda c: c.update(i=c["i"] + 100))
     add("subject-name-extended", lambda c: c.update(s=c["s"] + 100))
     add("sig-bad", lambda c: c.update(g=0))
+    # octets after the signature value inside the BIT STRING (the value is one DER SEQUENCE { r, s })
+    for n in (1, 2, 8):
+        add("sig-trailing-octets-%d" % n, lambda c, n=n: c.update(t=n))
     add("sig-wrong-key", lambda c: c.update(g=6))
     add("key-other", lambda c: c.update(k=6))
     add("serial-1", lambda c: c.update(l=1))
@@ -313,6 +317,21 @@ def gen(ctx):
                             add(vline(form, role, depth, NOW, c2, s2), "verify:%s:role%d:self-issued-ca:x%d:depth%s:toppl%s:rootpl%s" % (
                                 form, role, extra, "<" if depth < ncas else ("=" if depth == ncas else ">"),
                                 "absent" if top_pl < 0 else ("<" if top_pl < extra else "="), "absent" if root_pl < 0 else ("<" if root_pl < ncas else "=")))
+            # forged look-alikes of the trust anchor on top of the chain: self-signed, the anchor's name (and serial number, or another
+            # serial number), another key; with the certificates below signed by that key (a consistent forged path) or left as issued
+            for ncas in (0, 1, 2):
+                ch, st = base(ncas, tlcp, role)
+                for serial_len, sn in ((8, "same-serial"), (9, "other-serial")):
+                    fake = copy.deepcopy(st[0]); fake.update(k=6, g=6, l=serial_len)
+                    forged = copy.deepcopy(ch)
+                    for c in forged:
+                        if c["i"] == 1:
+                            c["g"] = 6
+                    for depth in (ncas, ncas + 1, 6):
+                        add(vline(form, role, depth, NOW, forged + [fake], st), "verify:%s:role%d:forged-anchor-on-top:forged-path:%s" % (form, role, sn))
+                        add(vline(form, role, depth, NOW, copy.deepcopy(ch) + [fake], st), "verify:%s:role%d:forged-anchor-on-top:genuine-path:%s" % (form, role, sn))
+                    # the look-alike alone, and in place of the anchor in the store (then it is the anchor)
+                    add(vline(form, role, 6, NOW, forged, [fake]), "verify:%s:role%d:forged-anchor-as-store:%s" % (form, role, sn))
             # the root itself presented at the top of the chain, depth at the boundary
             for ncas in (0, 1, 2):
                 ch, st = base(ncas, tlcp, role)
